@@ -255,6 +255,11 @@ _SAFE_BUILTINS = {
     'sum': sum, 'any': any, 'all': all, 'isinstance': None, 'format': format, 'chr': chr, 'ord': ord,
 }
 _CONCRETE = (str, bytes, int, float, bool, type(None), tuple, frozenset, dict, list, set, range)
+# Language-level constants of the standard library that repository code imports by name.
+EXT_CONSTS = {
+    'inspect.CO_VARARGS': 0x04, 'inspect.CO_VARKEYWORDS': 0x08, 'inspect.CO_GENERATOR': 0x20,
+    'inspect.CO_COROUTINE': 0x80, 'inspect.CO_ITERABLE_COROUTINE': 0x100, 'inspect.CO_ASYNC_GENERATOR': 0x200,
+}
 
 
 class Folder:
@@ -268,6 +273,8 @@ class Folder:
         self.stubs: dict[str, object] = {}        # function qual -> python callable(env, args, kwargs)
         self.isinstance_hook = None
         self.builtin_hook = None
+        self.ext_consts: dict[str, object] = dict(EXT_CONSTS)   # values of external names (language constants)
+        self.ext_stubs: dict[str, object] = {}    # external callable name -> python callable(env, args, kwargs)
 
     # ------------------------------------------------------------------
     def module_env(self, modname: str) -> dict:
@@ -290,6 +297,21 @@ class Folder:
                 pass
         self._done.add(modname)
         return env
+
+    def patch_global(self, modname: str, name: str, value):
+        """Replace a module-level object by an abstract stand-in, in the defining module and in
+        every module that already imported it."""
+        env = self.module_env(modname)
+        if name not in env:
+            raise AnalysisError(f'anchor vanished: {modname}.{name}')
+        old = env[name]
+        env[name] = value
+        if not isinstance(old, Unknown):
+            for e in self._envs.values():
+                for k, v in list(e.items()):
+                    if v is old:
+                        e[k] = value
+        return old
 
     def value(self, modname: str, name: str):
         env = self.module_env(modname)
@@ -336,6 +358,7 @@ class _Env:
         self.qualprefix = qualprefix
         self.global_names: set[str] = set()
         self.is_class_body = False
+        self.yields = None       # list collecting yielded values when a generator function is interpreted
         self.owner = None        # ClassVal owning the method being interpreted (for super())
         self.self_name = None
 
@@ -371,6 +394,15 @@ class _Env:
     def exec_stmt(self, st: ast.AST):
         if isinstance(st, ast.Expr):
             if isinstance(st.value, ast.Constant):
+                return
+            if isinstance(st.value, ast.Yield) and self.yields is not None:
+                self.yields.append(self.ev(st.value.value) if st.value.value is not None else None)
+                return
+            if isinstance(st.value, ast.YieldFrom) and self.yields is not None:
+                v = self.ev(st.value.value)
+                if isinstance(v, Unknown):
+                    raise _Abort(f'yield from unknown: {v.reason}')
+                self.yields.extend(v)
                 return
             try:
                 self.ev(st.value)
@@ -494,7 +526,10 @@ class _Env:
             for it in st.items:
                 v = self._ev_or_unknown(it.context_expr, st)
                 if it.optional_vars is not None:
-                    self.assign(it.optional_vars, Unknown('with target') if not isinstance(v, Unknown) else v)
+                    if isinstance(v, _WithValue):
+                        self.assign(it.optional_vars, v.value)
+                    else:
+                        self.assign(it.optional_vars, Unknown('with target') if not isinstance(v, Unknown) else v)
             self.exec_block(st.body)
         elif isinstance(st, ast.Assert):
             # in abstract-interpretation mode an assertion that is *definitely* false stops the
@@ -554,6 +589,8 @@ class _Env:
                     self.store(local, Unknown(f'{sm}.{sn} not (yet) defined (import cycle or missing)'))
             elif (sm, sn) == ('typing', 'TYPE_CHECKING'):
                 self.store(local, False)
+            elif f'{sm}.{sn}' in self.f.ext_consts:
+                self.store(local, self.f.ext_consts[f'{sm}.{sn}'])
             else:
                 self.store(local, Sym('ext', f'{sm}.{sn}'))
 
@@ -776,6 +813,8 @@ class _Env:
                 return o[k]
             except Exception as ex:
                 raise _Abort(f'subscript failed: {ex!r}')
+        if isinstance(o, AObj) and hasattr(o, '__getitem__'):
+            return o[k]
         if isinstance(o, (Sym, ClassVal)):
             # typing-style subscription of an external / class object: symbolic
             return Sym('subscripted', f'{o!r}[{k!r}]')
@@ -958,6 +997,8 @@ class _Env:
                     r = self.f.builtin_hook(fn.name, args, kwargs)
                     if r is not NotImplemented:
                         return r
+                if fn.name == 'next' and args and isinstance(args[0], _Counter):
+                    return args[0].next()
                 if fn.name == 'super' and not args:
                     slf = self.l.get(self.self_name) if self.self_name else None
                     if isinstance(slf, _ObjVal) and self.owner is not None:
@@ -994,6 +1035,11 @@ class _Env:
                 if isinstance(r, (enumerate, zip, reversed)):
                     r = tuple(r)
                 return r
+            stub = self.f.ext_stubs.get(fn.name)
+            if stub is not None:
+                return stub(self, args, kwargs)
+            if fn.name == 'itertools.count' and all(isinstance(a, int) for a in list(args) + list(kwargs.values())):
+                return _Counter(*args, **kwargs)
             return Unknown(f'call of external {fn.name}')
         if isinstance(fn, BoundMethod):
             if isinstance(fn.name, FuncVal):  # method of an abstract object
@@ -1077,6 +1123,25 @@ class AObj:
     attribute access in interpreted code reads the Python attribute."""
 
 
+class _Counter(AObj if 'AObj' in globals() else object):
+    """``itertools.count(start, step)`` (module-level index counters of the repository)."""
+
+    def __init__(self, start=0, step=1):
+        self.n, self.step = start, step
+
+    def next(self):
+        v = self.n
+        self.n += self.step
+        return v
+
+
+class _WithValue:
+    """Result of a stubbed context-manager factory: ``with f() as x`` binds ``x`` to ``value``."""
+
+    def __init__(self, value):
+        self.value = value
+
+
 class _SuperVal:
     def __init__(self, owner, obj):
         self.owner, self.obj = owner, obj
@@ -1115,6 +1180,11 @@ def _construct(env: _Env, cls: ClassVal, args, kwargs, e):
         missing = cls.find('__missing__')
         if isinstance(missing, FuncVal) and not args and not kwargs:
             return _DictObj(cls, env.f, missing)
+        if missing is _MISSING and all(is_known(a) for a in args) and not kwargs:
+            try:
+                return dict(*args)      # FrozenDict(...) and similar: a plain mapping is enough
+            except Exception as ex:
+                raise _Abort(f'{cls.name}(…) failed: {ex}')
         return Unknown(f'dict subclass {cls.name}')
     if cls.is_enum():
         return Unknown('enum call')
@@ -1180,8 +1250,25 @@ def _call_function(folder: Folder, fn: FuncVal, args: list, kwargs: dict, depth:
         raise _Abort(f'unexpected keyword arguments {sorted(kwargs)}')
     if isinstance(node, ast.Lambda):
         return env.ev(node.body)
+    is_gen = getattr(node, '_is_generator', None)
+    if is_gen is None:
+        from .flow import walk_shallow
+        is_gen = any(isinstance(x, (ast.Yield, ast.YieldFrom)) for x in walk_shallow(node))
+        node._is_generator = is_gen
+    if is_gen:
+        # a generator function is interpreted eagerly: the tuple of everything it yields
+        env.yields = []
+        try:
+            env.exec_block(node.body)
+        except _Return:
+            pass
+        return tuple(env.yields)
     try:
         env.exec_block(node.body)
     except _Return as r:
         return r.value
+    except _Abort as a:
+        if ' [in ' not in str(a):
+            raise _Abort(f'{a} [in {fn.qual}]') from None
+        raise
     return None
